@@ -161,3 +161,58 @@ Definition f_two : f64 := of_bits 4611686018427387904.
 (* 1/2 exactly: the filter drops the eigenvalues in [1/2, 2] *)
 Theorem lr_default_cutoff_recip : to_bits (frecip f_two) = 4602678819172646912%Z.
 Proof. vm_compute. reflexivity. Qed.
+
+(* ---------------------------------------------------------------------------------------- *)
+(* sigma = sqrt(sqrt(var(x)/var(g))): whatever the two variances are, it is either rejected   *)
+(* later (non-finite or zero, see above) or lies in [2^-1022, 2^1022]                         *)
+(* ---------------------------------------------------------------------------------------- *)
+Import Coq.Reals.Reals Coq.micromega.Lra.
+Import Flocq.Core.Core Flocq.IEEE754.Binary Flocq.IEEE754.Bits.
+Local Open Scope R_scope.
+
+Lemma fsqrt_finpos_good x : finpos x -> good (fsqrt x).
+Proof.
+  intros H. apply finpos_iff in H. destruct H as [Hf Hp].
+  destruct (fsqrt_finite_pos x Hf Hp) as [Hf' HR]. split; [exact Hf'|]. rewrite HR.
+  assert (Hs : is_finite_strict 53 1024 x = true).
+  { destruct x as [s|s|s pl Hpl|s m e He]; try discriminate; auto.
+    exfalso. simpl in Hp. lra. }
+  pose proof (abs_B2R_ge_emin 53 1024 x Hs) as HL.
+  pose proof (abs_B2R_lt_emax 53 1024 x) as HU.
+  rewrite Rabs_pos_eq in HL, HU by lra.
+  assert (HL' : bpow radix2 (2 * (-537)) <= R64 x) by exact HL.
+  assert (HU' : R64 x < bpow radix2 (2 * 512)) by exact HU.
+  assert (B : bpow radix2 (-537) <= sqrt (R64 x) <= bpow radix2 512).
+  { split.
+    - rewrite <- (sqrt_bpow radix2 (-537)). apply sqrt_le_1_alt. exact HL'.
+    - rewrite <- (sqrt_bpow radix2 512). apply sqrt_le_1_alt. lra. }
+  pose proof (rnd_bounds (-537) 512 _ ltac:(lia) ltac:(lia) B) as [R1 R2].
+  split.
+  - eapply Rle_trans; [|exact R1]. apply bpow_le. lia.
+  - eapply Rle_trans; [exact R2|]. apply bpow_le. lia.
+Qed.
+
+Theorem lr_sigma_cases dv gv :
+  let s := lr_sigma dv gv in
+  good s \/ Fp.is_finite s = false \/ feq s fzero = true.
+Proof.
+  unfold lr_sigma. destruct (fdiv dv gv) as [s|s|s pl Hpl|s m e He].
+  - right; right. destruct s; reflexivity.
+  - right; left. destruct s; reflexivity.
+  - right; left. reflexivity.
+  - destruct s.
+    + right; left. reflexivity.
+    + left. apply fsqrt_good, fsqrt_finpos_good, finpos_iff. split; [reflexivity|].
+      exact (R64_finite_sign false m e He).
+Qed.
+
+(* every sigma rescale_points can compute is either in range or makes its row non-finite *)
+Theorem lr_sigma_good_or_poison dv gv :
+  let s := lr_sigma dv gv in
+  good s \/
+  (forall v mu, Fp.is_finite (lr_draw_scaled v mu s) = false) \/
+  (forall g, Fp.is_finite (lr_grad_scaled g s) = false).
+Proof.
+  intros s. destruct (lr_sigma_cases dv gv) as [G|B]; [left; exact G|right].
+  apply lr_bad_sigma_poisons_row. exact B.
+Qed.
